@@ -3,7 +3,9 @@
 confirmed ones as /verif/seeded/<id>-<i>/ (patch.diff, demo.py, meta.json)."""
 import json, os, shutil, subprocess, sys, tempfile
 VERIF = os.path.dirname(os.path.dirname(os.path.abspath(__file__)))
-ids = sys.argv[1:] or sorted(os.listdir('/tmp/wt-out'))
+SRC = os.environ.get('SEED_SRC', '/tmp/wt-out')
+TAG = os.environ.get('SEED_TAG', '')          # e.g. 'r2' -> seeded/c01-r2-1
+ids = sys.argv[1:] or sorted(os.listdir(SRC))
 scratch = tempfile.mkdtemp(prefix='nptdms-seedverify-', dir='/tmp')
 wt = os.path.join(scratch, 'repo')
 subprocess.run(['git', '-C', '/repo', 'worktree', 'add', '-q', '--detach', wt, 'HEAD'], check=True)
@@ -11,11 +13,11 @@ def sh(cmd, **kw): return subprocess.run(cmd, capture_output=True, text=True, **
 try:
     for pid in ids:
         for i in (1, 2, 3):
-            src = '/tmp/wt-out/%s' % pid
+            src = '%s/%s' % (SRC, pid)
             patch, demo, meta = ('%s/%s%d.%s' % (src, n, i, e) for n, e in (('patch', 'diff'), ('demo', 'py'), ('meta', 'json')))
             if not (os.path.exists(patch) and os.path.exists(demo)):
                 continue
-            name = '%s-%d' % (pid.lower(), i)
+            name = '%s-%s%d' % (pid.lower(), (TAG + '-') if TAG else '', i)
             sh(['git', '-C', wt, 'checkout', '--', '.'])
             env = dict(os.environ, PYTHONPATH=wt, PYTHONDONTWRITEBYTECODE='1')
             clean = sh(['/venv/bin/python', demo], cwd=wt, env=env)
